@@ -240,5 +240,14 @@ Theorem C03_create_exit_11_iff : forall Hb matches C cdig ser t req no_dh ip ifl
 Proof. exact create_exit_11_iff. Qed.
 Print Assumptions C03_create_exit_11_iff.
 
+(* the reading commands always end with an exit code (any tree, any nesting, any state of the histories): an internal
+   error of verify, diff, info, info -sf or flatten on the real tool is therefore a disagreement with the model *)
+Theorem C03_readers_always_end_with_an_exit_code : forall Hb matches C cdig t,
+  (forall d only ip ifl, exists c, o_outcome (snd (verify_like Hb matches C cdig d t only ip ifl)) = Exit c) /\
+  (exists c, o_outcome (snd (info C cdig t)) = Exit c) /\ (forall file, exists c, o_outcome (snd (info_sf C cdig t file)) = Exit c) /\
+  (forall ip ifl, exists c, o_outcome (snd (flatten C cdig t ip ifl)) = Exit c).
+Proof. exact readers_total. Qed.
+Print Assumptions C03_readers_always_end_with_an_exit_code.
+
 Theorem C03_codes : exit_completeness = 10%Z /\ exit_verification_failed = 11%Z /\ exit_new_files_found = 21%Z /\ exit_single_file_not_found = 20%Z.
 Proof. repeat split; reflexivity. Qed.
